@@ -373,6 +373,46 @@ def check_always_finalised(repo, rep, uni):
     rep.floor('finaliser switch scenarios', n, 81)
 
 
+COPYING = ('yaql.language.utils.FrozenDict', 'builtins.dict',
+           'copy.copy', 'copy.deepcopy', 'builtins.frozenset',
+           'builtins.tuple')
+
+
+def check_options_are_a_snapshot(repo, rep):
+    """R10f: the four conversion combinations are properties of the engine.
+    The engine must therefore keep its *own copy* of the options it was
+    created with: a reference to (or a read-only view of) the caller's dict
+    changes when the host reuses that dict for the next engine, and the
+    finaliser -- which reads the switches on every evaluation -- converts
+    with the options of another engine."""
+    fm = repo.module('yaql.language.factory')
+    ci = fm.classes.get('YaqlEngine')
+    init = ci.methods.get('__init__') if ci else None
+    if init is None or 'options' not in init.params():
+        raise AnalysisError('anchor vanished: YaqlEngine.__init__(options)')
+    stores = []
+    for st in ast.walk(init.node):
+        if isinstance(st, ast.Assign) and 'options' in model.names_loaded(
+                st.value) and any(isinstance(t, ast.Attribute)
+                                  for t in st.targets):
+            stores.append(st)
+    if not stores:
+        raise AnalysisError('anchor vanished: the options attribute of '
+                            'YaqlEngine')
+    for st in stores:
+        v = norm.subst_locals(init.node, st.value, only_pure=False)
+        ok = isinstance(v, ast.Call) and repo.resolve(
+            fm, v.func, model.scope_locals(init)) in COPYING
+        rep.ob('R10f', '%s/options-snapshot' % init.key, ok,
+               'YaqlEngine keeps `%s`: the options must be copied when the '
+               'engine is made (FrozenDict(options) / dict(options)); a '
+               'reference or a live view of the caller\'s dict follows '
+               'later changes of that dict, so an engine converts its '
+               'results with switches it was not created with' %
+               model.norm(st.value), loc=fm.loc(st),
+               construct=model.norm(st))
+
+
 def check_value_universe(repo, rep, uni, facts):
     """Every container kind a registered function can return is a kind of
     the shape universe."""
@@ -599,5 +639,12 @@ def run(repo, rep):
     n, nshapes = check_finaliser(repo, rep, facts, depth, extra)
     nin = check_input(repo, rep, facts, 2)
     check_always_finalised(repo, rep, uni)
+    rep.rule('R10f', 'OPTIONS-ARE-A-SNAPSHOT: the engine copies the options '
+             'it is created with')
+    check_options_are_a_snapshot(repo, rep)
+    from sa.rules import c17
+    rep.rule('R17i', 'see C17: a layer that binds a variable to null is not '
+             'skipped (a null document bound to `$` comes back as null)')
+    c17.check_marker_for_not_bound(repo, rep, repo.module(c17.CTX))
     rep.count(shapes=nshapes, option_combinations=len(OPTS),
               finaliser_obligations=n, input_obligations=nin, depth=depth)
